@@ -28,6 +28,9 @@ pub struct P {
     pub stop: Stop,
     /// another task calls add_route while the stop is in progress
     pub racing_add: bool,
+    /// another task keeps sending on the first route while the stop is in progress
+    #[serde(default)]
+    pub traffic: bool,
 }
 
 #[derive(Default)]
@@ -86,6 +89,15 @@ fn body(p: &P) -> Result<(), String> {
         drop(rrx);
         None
     };
+    let traffic = if p.traffic && !txs.is_empty() {
+        let t = txs[0].clone();
+        Some(std::thread::spawn(move || {
+            let _ = t.send(21);
+            let _ = t.send(22);
+        }))
+    } else {
+        None
+    };
     let n_cb_main = p.routes.iter().filter(|(k, _)| *k == Kind::Callback).count();
     let stopped_at: u64;
     match p.stop {
@@ -141,13 +153,22 @@ fn body(p: &P) -> Result<(), String> {
                 drop(proxy);
                 sched::settle();
                 stopped_at = CLOCK.fetch_add(1, Ordering::SeqCst);
+                if let Some(t) = traffic {
+                    t.join().map_err(|_| "[stop-panic] the traffic task panicked".to_string())?;
+                }
                 return finish(p, rec, txs, rtx, xbs, stopped_at, racing_route, None);
             }
             drop(proxy);
             sched::settle();
             stopped_at = CLOCK.fetch_add(1, Ordering::SeqCst);
+            if let Some(t) = traffic {
+                t.join().map_err(|_| "[stop-panic] the traffic task panicked".to_string())?;
+            }
             return finish(p, rec, txs, rtx, xbs, stopped_at, racing_route, None);
         },
+    }
+    if let Some(t) = traffic {
+        t.join().map_err(|_| "[stop-panic] the traffic task panicked".to_string())?;
     }
     finish(p, rec, txs, rtx, xbs, stopped_at, racing_route, racer.map(|r| (r, proxy)))
 }
@@ -227,15 +248,18 @@ pub fn scenarios(tier: Tier) -> Vec<Scenario> {
     };
     use Kind::*;
     if tier.is_quick() {
-        add(P { routes: vec![], stop: Stop::Shutdown(1), racing_add: false }, 3);
-        add(P { routes: vec![(Callback, true)], stop: Stop::Shutdown(1), racing_add: false }, 3);
-        add(P { routes: vec![(Crossbeam, true)], stop: Stop::Shutdown(1), racing_add: true }, 2);
-        add(P { routes: vec![(Crossbeam, false), (Callback, false)], stop: Stop::Shutdown(1), racing_add: true }, 2);
-        add(P { routes: vec![(Callback, true)], stop: Stop::Shutdown(2), racing_add: false }, 2);
-        add(P { routes: vec![(Callback, true), (Crossbeam, true)], stop: Stop::DropProxy, racing_add: false }, 3);
-        add(P { routes: vec![], stop: Stop::DropProxy, racing_add: false }, 3);
-        add(P { routes: vec![(Callback, false)], stop: Stop::DropProxy, racing_add: true }, 2);
-        add(P { routes: vec![(Callback, true), (Callback, false)], stop: Stop::Shutdown(2), racing_add: true }, 1);
+        add(P { routes: vec![], stop: Stop::Shutdown(1), racing_add: false, traffic: false }, 3);
+        add(P { routes: vec![(Callback, true)], stop: Stop::Shutdown(1), racing_add: false, traffic: false }, 3);
+        add(P { routes: vec![(Crossbeam, true)], stop: Stop::Shutdown(1), racing_add: true, traffic: false }, 2);
+        add(P { routes: vec![(Crossbeam, false), (Callback, false)], stop: Stop::Shutdown(1), racing_add: true, traffic: false }, 2);
+        add(P { routes: vec![(Callback, true)], stop: Stop::Shutdown(2), racing_add: false, traffic: false }, 2);
+        add(P { routes: vec![(Callback, true), (Crossbeam, true)], stop: Stop::DropProxy, racing_add: false, traffic: false }, 3);
+        add(P { routes: vec![], stop: Stop::DropProxy, racing_add: false, traffic: false }, 3);
+        add(P { routes: vec![(Callback, false)], stop: Stop::DropProxy, racing_add: true, traffic: false }, 2);
+        add(P { routes: vec![(Callback, true), (Callback, false)], stop: Stop::Shutdown(2), racing_add: true, traffic: false }, 1);
+        add(P { routes: vec![(Callback, false)], stop: Stop::Shutdown(1), racing_add: false, traffic: true }, 2);
+        add(P { routes: vec![(Crossbeam, false), (Callback, true)], stop: Stop::Shutdown(1), racing_add: false, traffic: true }, 2);
+        add(P { routes: vec![(Callback, false)], stop: Stop::DropProxy, racing_add: false, traffic: true }, 2);
     } else {
         let route_sets: Vec<Vec<(Kind, bool)>> = vec![
             vec![],
@@ -251,7 +275,10 @@ pub fn scenarios(tier: Tier) -> Vec<Scenario> {
             for stop in [Stop::Shutdown(1), Stop::Shutdown(2), Stop::DropProxy] {
                 for racing in [false, true] {
                     let b = if rs.len() + racing as usize + matches!(stop, Stop::Shutdown(2)) as usize <= 1 { 3 } else { 2 };
-                    add(P { routes: rs.clone(), stop, racing_add: racing }, b);
+                    add(P { routes: rs.clone(), stop, racing_add: racing, traffic: false }, b);
+                    if !rs.is_empty() {
+                        add(P { routes: rs.clone(), stop, racing_add: racing, traffic: true }, 2);
+                    }
                 }
             }
         }
